@@ -19,7 +19,7 @@ structure InvAt (P : Expr → Prop) (env : PEnv) (f : Nat) : Prop where
     ∀ n v, (n, v) ∈ fs → v.All P
 
 theorem nudRes_inv {P : Expr → Prop} (C : NodeOK P) (env : PEnv) {f : Nat} (ih : InvAt P env f)
-    (t : Token) (i : Nat) (bp : Float) (nud : Nud)
+    (t : Token) (i : Nat) (bp : BP) (nud : Nud)
     (e : Expr) (j : Nat) (h : nudRes env f t i bp nud = .ok (e, j)) : e.All P := by
   have ihE := ih.exprI
   have ihL := ih.listI
@@ -54,7 +54,7 @@ theorem nudRes_inv {P : Expr → Prop} (C : NodeOK P) (env : PEnv) {f : Nat} (ih
 
 /-- the `led` half: the node built satisfies `All P` once `infixNCheck` has passed -/
 theorem ledRes_inv {P : Expr → Prop} (C : NodeOK P) (env : PEnv) {f : Nat} (ih : InvAt P env f)
-    (left : Expr) (t : Token) (i : Nat) (bp : Float) (led : Led) (hl : left.All P)
+    (left : Expr) (t : Token) (i : Nat) (bp : BP) (led : Led) (hl : left.All P)
     (e : Expr) (j : Nat) (h : ledRes env f left t i bp led = .ok (e, j))
     (hc : infixNCheck e = .ok e) : e.All P := by
   have ihE := ih.exprI
